@@ -250,14 +250,27 @@ func (e *c07env) runSchedule(t *tracer, sc scenario, prefix []int, schedID int, 
 		ti := &tinfo{kind: "request", req: rk}
 		infos[id] = ti
 		rs := e.reqs[rk]
-		threads = append(threads, &lthread{id: id, resume: make(chan struct{}), fn: func() {
-			w := newRec()
-			invoked := 0
-			h := m.Wrap(http.HandlerFunc(func(w2 http.ResponseWriter, _ *http.Request) {
+		// every other request goes through a handler that was wrapped BEFORE the schedule starts - the way servers are set up:
+		// Wrap once, serve for ever - i.e. while the middleware was still in the scenario's initial state; the others wrap inside
+		// the request's own window. Whatever Wrap decides once and for all shows in the first kind.
+		w := newRec()
+		invoked := 0
+		wrap := func() http.Handler {
+			return m.Wrap(http.HandlerFunc(func(w2 http.ResponseWriter, _ *http.Request) {
 				ctl.gate("Handler")
 				invoked++
 				commitAndEdit(w2, w.h, 200) // (the recorder's own map: no scheduler gate)
 			}))
+		}
+		var early http.Handler
+		if (schedID+i)%2 == 0 {
+			early = wrap()
+		}
+		threads = append(threads, &lthread{id: id, resume: make(chan struct{}), fn: func() {
+			h := early
+			if h == nil {
+				h = wrap()
+			}
 			h.ServeHTTP(&gatedRW{rec: w, c: ctl}, newReq(rs.Method, cloneHeader(rs.H)))
 			ti.result = respFP(w, invoked)
 		}})
